@@ -527,7 +527,7 @@ def oracle(case, impl):
                 if not isinstance(fin["grid"], int) or not isinstance(dlv["grid"], int) or not same_locations(fin["grid"], dlv["grid"]):
                     return ("the input's grid must describe the same data locations as the delivered grid",
                             {"where": where, "input_grid": fin["grid"], "delivered_grid": dlv["grid"]})
-                if dims(fin["units"]) != dims(dlv["units"]):
+                if dlv["units"] is None or dims(fin["units"]) != dims(dlv["units"]):
                     return ("the input's units must be convertible from the delivered units",
                             {"where": where, "input_units": fin["units"], "delivered_units": dlv["units"]})
                 if not mask_requirement_met(decl["mask"], fin["grid"], dlv["mask"], dlv["grid"]):
